@@ -2,7 +2,7 @@ SPECIFICATION Spec
 CONSTANTS
   Elems2 = {"TRI3", "QUAD4", "TRI6", "QUAD8", "QUAD9", "TRI10"}
   Elems3 = {"TETRA4", "HEXA8", "PRISM6", "TETRA10", "HEXA20", "PRISM15", "HEXA27", "PRISM18"}
-  LawsAll = {"SVK", "NH", "MR", "CG", "HO", "AD"}
+  LawsAll = {"SVK", "SVQ", "NH", "MR", "CG", "HO", "AD"}
   Emit = TRUE
   Thorough = TRUE
 INVARIANT TypeOK
